@@ -1,7 +1,8 @@
 //! C15: OpaqueCallback / FeedCallback / FromExtend / CIterator.
 use crate::tok::*;
 use crate::{Mon, Rows};
-use cglue::callback::{FeedCallback, FromExtend, OpaqueCallback};
+use cglue::callback::{Callbackable, FeedCallback, FromExtend, OpaqueCallback};
+use cglue::iter::AsCIterator;
 use cglue::iter::CIterator;
 use std::collections::VecDeque;
 
@@ -23,7 +24,9 @@ fn feed(method: i64, items: Vec<Tok>, cb: OpaqueCallback<Tok>) -> i64 {
     match method {
         0 => items.into_iter().feed_into_mut(&mut cb) as i64,
         1 => { cb.extend(items); -1 }
-        _ => items.feed_into(cb) as i64,
+        2 => items.feed_into(cb) as i64,
+        3 => { let mut n = 0; let mut it = items.into_iter(); while let Some(v) = it.next() { n += 1; if !Callbackable::call(&mut cb, v) { break; } } drop(it); n }
+        _ => { let mut n = 0; let mut r = &mut cb; let mut it = items.into_iter(); while let Some(v) = it.next() { n += 1; if !Callbackable::call(&mut r, v) { break; } } drop(it); n }
     }
 }
 
@@ -81,7 +84,7 @@ pub fn run(_params: &[i64], ops: &Rows, mon: &mut Mon) -> Rows {
             let mut expect_pos = 0usize;
             while i < iops.len() {
                 if iops[i] == 0 {
-                    let mut w = CIterator::new(&mut src);
+                    let mut w = if k % 2 == 0 { CIterator::new(&mut src) } else if k % 3 == 0 { CIterator::from(&mut src) } else { src.as_citer() };
                     while i < iops.len() && iops[i] == 0 {
                         let r = w.next();
                         let e = script.get(expect_pos).copied().flatten();
